@@ -155,7 +155,7 @@ func (s *fstate) kill(root types.Object, path []string) *fstate { return s.killX
 func (s *fstate) killX(root types.Object, path []string, viaCall bool) *fstate {
 	var n *fstate
 	for k, f := range s.facts {
-		if f.S == "called" {
+		if f.S == "called" || strings.HasPrefix(f.S, "did") {
 			continue // an event that happened stays true
 		}
 		if f.S == "orig" && (len(path) > 0 || viaCall) {
@@ -227,6 +227,7 @@ type e1 struct {
 	inferred  map[*FuncInfo][]*Term
 	inferring map[*FuncInfo]bool
 	collapsed int
+	globalInit map[*types.Var]bool
 	relevant   []*Term
 	relSeen    map[string]bool
 	relCache   map[string]bool
@@ -1639,7 +1640,14 @@ func (f *e1func) neverNil(t *Term, st *fstate) bool {
 	case "const":
 		// package-level error variables (ErrX) are never nil
 		i := strings.LastIndex(t.S, ".")
-		return strings.HasPrefix(t.S[i+1:], "Err")
+		if strings.HasPrefix(t.S[i+1:], "Err") {
+			return true
+		}
+		// any package-level variable initialised with a freshly built error (var errX = errors.New(...))
+		if v, ok := t.Obj.(*types.Var); ok && f.eng != nil {
+			return f.eng.globalErrInit(v)
+		}
+		return false
 	case "call":
 		i := strings.LastIndex(t.S, ".")
 		base := t.S[i+1:]
@@ -1824,6 +1832,10 @@ func (f *e1func) okFacts(st *fstate, call *Term, withOk bool) []*Term {
 	var out []*Term
 	if withOk {
 		out = append(out, fact("ok", call))
+		if call.K == "mcall" {
+			// the outcome as an event (survives later changes of the arguments' variables): "that method succeeded on this path"
+			out = append(out, fact("didOk", mk("const", call.S)))
+		}
 	}
 	if call.K != "call" && call.K != "mcall" {
 		return out
@@ -2401,7 +2413,7 @@ func (f *e1func) leaf(st *fstate, cond ast.Expr, val bool) ([]*Term, bool) {
 					if val {
 						return append([]*Term{fact("true", xt)}, f.okFacts(st, d.A[1], true)...), true
 					}
-					return []*Term{fact("false", xt), fact("fail", d.A[1])}, true
+					return append([]*Term{fact("false", xt), fact("fail", d.A[1])}, f.failGuarFacts(d.A[1])...), true
 				}
 				if len(d.A) == 2 && d.A[1].K == "const" && (d.A[1].S == "true" || d.A[1].S == "false") {
 					return nil, (d.A[1].S == "true") == val
@@ -2493,7 +2505,7 @@ func (f *e1func) statusFacts(st *fstate, x ast.Expr, xt *Term, isNil bool) []*Te
 	if isNil {
 		return f.okFacts(st, call, true)
 	}
-	return []*Term{fact("fail", call)}
+	return append([]*Term{fact("fail", call)}, f.failGuarFacts(call)...)
 }
 
 // ---------------------------------------------------------------------------------------------
@@ -2590,7 +2602,7 @@ func holdsByDefinition(st *fstate, g *Term) (bool, string) {
 				return true, "definition of " + g.S + " (guarantee of " + gu.Fn + ")"
 			}
 			if os.Getenv("E1DEBUGDEF") != "" {
-				fmt.Fprintf(os.Stderr, "definition of %s not provable: %s (bind %v)\n", g, res.failed, nb)
+				fmt.Fprintf(os.Stderr, "definition of %s not provable: %s (bind %v) in state %v\n", g, res.failed, nb, st.trail())
 			}
 		}
 	}
@@ -2955,4 +2967,44 @@ func (f *e1func) failGuarFacts(call *Term) []*Term {
 		}
 	}
 	return out
+}
+
+
+// globalErrInit: is the package-level variable declared with an initialiser that builds a (never-nil) error value?
+// (Package-level variables are not reassigned: C20's R-global reports any store to one.)
+func (e *e1) globalErrInit(v *types.Var) bool {
+	if e.globalInit == nil {
+		e.globalInit = map[*types.Var]bool{}
+		for _, pk := range e.c.P.Scope {
+			for _, file := range pk.Syntax {
+				for _, d := range file.Decls {
+					gd, ok := d.(*ast.GenDecl)
+					if !ok || gd.Tok != token.VAR {
+						continue
+					}
+					for _, sp := range gd.Specs {
+						vs, ok := sp.(*ast.ValueSpec)
+						if !ok || len(vs.Values) != len(vs.Names) {
+							continue
+						}
+						for i, id := range vs.Names {
+							o, _ := pk.TypesInfo.Defs[id].(*types.Var)
+							if o == nil {
+								continue
+							}
+							call, ok := unparen(vs.Values[i]).(*ast.CallExpr)
+							if !ok {
+								continue
+							}
+							tb := &termBuilder{info: pk.TypesInfo, inl: map[types.Object]ast.Expr{}, fset: e.c.P.Fset}
+							if (&e1func{}).neverNil(tb.callTerm(call), nil) {
+								e.globalInit[o] = true
+							}
+						}
+					}
+				}
+			}
+		}
+	}
+	return e.globalInit[v]
 }
